@@ -71,6 +71,9 @@ static void gai_cb(int result, struct evutil_addrinfo *res, void *arg)
 static const char *famname(int f) { return f == PF_INET ? "inet" : f == PF_INET6 ? "inet6" : f == PF_UNSPEC ? "unspec" : "other"; }
 
 /* compare a callback result with the expectation; `what` selects the failure key */
+#define CTX_ORIG_ANYSOCK 1    /* cache: the request that filled the cache left the socket type open */
+#define CTX_CANON_REQ 2       /* cache: this request asks for AI_CANONNAME */
+static int check_ctx;
 static void check_result(const char *what, const struct evutil_addrinfo *hints, struct gai_result *g, const struct expect *e)
 {
 	char key[128];
@@ -83,7 +86,7 @@ static void check_result(const char *what, const struct evutil_addrinfo *hints, 
 		return;
 	}
 	if (e->may_fail && g->result != 0 && !g->res) return;
-	if (g->result != 0 || !g->res) { snprintf(key, sizeof key, "C38/%s/unexpected-error", what); mc_fail(key, "result %d (%s), %d address(es) expected", g->result, evutil_gai_strerror(g->result), e->n); return; }
+	if (g->result != 0 || !g->res) { snprintf(key, sizeof key, "C38/%s/unexpected-error%s", what, (check_ctx & CTX_CANON_REQ) ? "/canonname-request" : ""); mc_fail(key, "result %d (%s), %d address(es) expected", g->result, evutil_gai_strerror(g->result), e->n); return; }
 	/* imply socktype <-> protocol */
 	if (hs == SOCK_STREAM && !hp) hp = IPPROTO_TCP;
 	if (hs == SOCK_DGRAM && !hp) hp = IPPROTO_UDP;
@@ -104,14 +107,18 @@ static void check_result(const char *what, const struct evutil_addrinfo *hints, 
 			char t[64]; inet_ntop(ai->ai_family, ap, t, sizeof t);
 			snprintf(key, sizeof key, "C38/%s/unexpected-address", what); mc_fail(key, "%s is not provided by the sources", t); continue;
 		}
-		if (port != e->port) { snprintf(key, sizeof key, "C38/%s/port", what); mc_fail(key, "port %d, expected %d", port, e->port); }
+		if (port != e->port) {
+			/* (0,0) hints produce a TCP and a UDP entry per address: is only the second one wrong? */
+			snprintf(key, sizeof key, "C38/%s/port%s", what, (!hs && !hp && ai->ai_socktype == SOCK_DGRAM) ? "/udp-twin-entry" : "");
+			mc_fail(key, "port %d, expected %d (entry socktype %d)", port, e->port, ai->ai_socktype);
+		}
 		/* socket type / protocol */
 		if (hs || hp) {
 			if (ai->ai_socktype != hs || ai->ai_protocol != hp) { snprintf(key, sizeof key, "C38/%s/socktype-protocol", what); mc_fail(key, "entry (%d,%d), hints imply (%d,%d)", ai->ai_socktype, ai->ai_protocol, hs, hp); }
-			if (seen_stream[k]++) { snprintf(key, sizeof key, "C38/%s/duplicate-entry", what); mc_fail(key, "address #%d listed twice", k); }
+			if (seen_stream[k]++) { snprintf(key, sizeof key, "C38/%s/duplicate-entry%s", what, (check_ctx & CTX_ORIG_ANYSOCK) ? "/orig-any-socktype" : ""); mc_fail(key, "address #%d listed twice", k); }
 		} else {
-			if (ai->ai_socktype == SOCK_STREAM && ai->ai_protocol == IPPROTO_TCP) { if (seen_stream[k]++) { snprintf(key, sizeof key, "C38/%s/duplicate-entry", what); mc_fail(key, "address #%d stream twice", k); } }
-			else if (ai->ai_socktype == SOCK_DGRAM && ai->ai_protocol == IPPROTO_UDP) { if (seen_dgram[k]++) { snprintf(key, sizeof key, "C38/%s/duplicate-entry", what); mc_fail(key, "address #%d dgram twice", k); } }
+			if (ai->ai_socktype == SOCK_STREAM && ai->ai_protocol == IPPROTO_TCP) { if (seen_stream[k]++) { snprintf(key, sizeof key, "C38/%s/duplicate-entry%s", what, (check_ctx & CTX_ORIG_ANYSOCK) ? "/orig-any-socktype" : ""); mc_fail(key, "address #%d stream twice", k); } }
+			else if (ai->ai_socktype == SOCK_DGRAM && ai->ai_protocol == IPPROTO_UDP) { if (seen_dgram[k]++) { snprintf(key, sizeof key, "C38/%s/duplicate-entry%s", what, (check_ctx & CTX_ORIG_ANYSOCK) ? "/orig-any-socktype" : ""); mc_fail(key, "address #%d dgram twice", k); } }
 			else if (ai->ai_socktype == SOCK_RAW) { /* the platform getaddrinfo lists raw sockets too when nothing was asked for */ }
 			else { snprintf(key, sizeof key, "C38/%s/socktype-protocol", what); mc_fail(key, "entry (%d,%d) for unconstrained hints", ai->ai_socktype, ai->ai_protocol); }
 		}
@@ -129,10 +136,12 @@ static void check_result(const char *what, const struct evutil_addrinfo *hints, 
 		}
 	}
 	for (int k = 0; k < e->n; k++) {
-		int ok = (hs || hp) ? seen_stream[k] == 1 : e->named_service ? (seen_stream[k] + seen_dgram[k] >= 1) : (seen_stream[k] == 1 && seen_dgram[k] == 1);
+		/* every provided address must be listed (duplicates were reported above) */
+		int ok = (hs || hp) ? seen_stream[k] >= 1 : e->named_service ? (seen_stream[k] + seen_dgram[k] >= 1) : (seen_stream[k] >= 1 && seen_dgram[k] >= 1);
 		if (!ok) {
 			char t[64]; inet_ntop(e->addr[k].fam, e->addr[k].a, t, sizeof t);
-			snprintf(key, sizeof key, "C38/%s/missing-address", what); mc_fail(key, "%s provided by the sources is missing (stream %d dgram %d)", t, seen_stream[k], seen_dgram[k]);
+			snprintf(key, sizeof key, "C38/%s/missing-address%s", what, (check_ctx & CTX_CANON_REQ) ? "/canonname-request" : "");
+			mc_fail(key, "%s provided by the sources is missing (stream %d dgram %d)", t, seen_stream[k], seen_dgram[k]);
 		}
 	}
 }
@@ -317,6 +326,7 @@ static void ns_reply(const struct dnse_msg *m, int script, int phase, int cname,
 	if (!tmp.n) dm_rr_soa(&d, 2, "test", 30, 30);
 	len = dm_finish(&d);
 	dnse_reply_udp(m, buf, len);
+	dnse_wait_readable(evdns_base_get_nameserver_fd(dbase, 0));   /* delivery is normally synchronous; never depend on it */
 }
 
 static int find_query(struct dnse_msg *m, int n, int qtype)
@@ -412,14 +422,14 @@ static void dns_case(void)
 	int age = ages[mc_choose(3, 0, "age")];
 	struct evutil_addrinfo h2; memset(&h2, 0, sizeof h2);
 	h2.ai_family = fams[mc_choose(3, 0, "family2")];
-	h2.ai_socktype = SOCK_STREAM;
+	h2.ai_socktype = mc_choose(mc_param("stpr2", 2), 0, "socktype2") ? 0 : SOCK_STREAM;
 	int canon2 = mc_choose(2, 0, "canonname2");
 	if (canon2) h2.ai_flags |= EVUTIL_AI_CANONNAME;
 	/* drain retransmissions of the first round, then age the cache */
 	dnse_ns_collect(msgs, 8);
 	advance_ms(age * 1000 - (int)((vclock_us - t_report) / 1000));
 	dnse_ns_collect(msgs, 8);
-	mc_observe("| age=%ds fam2=%s canon2=%d ", age, famname(h2.ai_family), canon2);
+	mc_observe("| age=%ds fam2=%s st2=%d canon2=%d ", age, famname(h2.ai_family), h2.ai_socktype, canon2);
 	struct gai_result g2 = {0, 0, NULL};
 	long sent0 = dnse_udp_sent_total();
 	rq = evdns_getaddrinfo(dbase, DNAME, "81", &h2, gai_cb, &g2);
@@ -447,9 +457,9 @@ static void dns_case(void)
 				if (!have_cname) mc_fail("C38/cache/hit-without-cname", "AI_CANONNAME request served from a cached answer that carries no CNAME (documented: not a hit)");
 				e2.canon = CANON;
 			}
-			char what[64];
-			snprintf(what, sizeof what, "cache/orig-%s%s/%s", h.ai_socktype ? "stream" : "anysock", canon1 ? "-canon" : "", canon2 ? "canon" : "plain");
-			check_result(what, &h2, &g2, &e2);
+			check_ctx = (h.ai_socktype ? 0 : CTX_ORIG_ANYSOCK) | (canon2 ? CTX_CANON_REQ : 0);
+			check_result("cache", &h2, &g2, &e2);
+			check_ctx = 0;
 		}
 	} else {
 		MC_COUNT("cache_misses");
